@@ -9,26 +9,126 @@ open CPEnv
     tail equals the project length -/
 theorem C12_exact (e : CPEnv) (l : List Uid) (h : criticalPath e = .ok l) :
     specCritical e = some l := by
-  sorry
+  unfold criticalPath at h
+  split at h
+  · cases h
+  · next len hlen =>
+    split at h
+    · cases h
+    · next l' hl' =>
+      cases h
+      unfold specCritical
+      rw [hlen]
+      have hm := mapM_some_congr _ (fun t => do
+          let f ← ef e t
+          let tl ← tail e t
+          pure (t, decide (f + tl = len))) _ _ ?_ hl'
+      · simp only [bind, Option.bind] at hm ⊢
+        rw [hm]; rfl
+      · intro a _ b hb
+        cases hf : ef e a with
+        | none => simp [hf, bind] at hb
+        | some f =>
+          cases hv : lfF e len (e.n + 1) a with
+          | none => simp [hf, hv, bind] at hb
+          | some v =>
+            have ht : tail e a = some (len - v) := tailF_of_lfF e len _ a v hv
+            simp only [hf, hv, bind, Option.bind, pure, Option.some.injEq] at hb
+            subst hb
+            simp only [ht, bind, Option.bind, pure, Option.some.injEq, Prod.mk.injEq, true_and, decide_eq_decide]
+            grind
 
 /-- … and it does return (no KeyError) whenever the leaf-level waits-for relation is acyclic -/
 theorem C12_total (e : CPEnv) (ha : acyclicB e = true) : ∃ l, criticalPath e = .ok l := by
-  sorry
+  have hef : ∀ t ∈ leaves e, ∃ w, ef e t = some w := by
+    intro t ht
+    unfold acyclicB at ha
+    exact Option.isSome_iff_exists.mp (List.all_eq_true.mp ha t ht)
+  obtain ⟨efs, hefs⟩ := mapM_total (ef e) (leaves e) hef
+  have hlen : projectLen e = some (efs.foldl max 0) := by
+    unfold projectLen; rw [hefs]; rfl
+  obtain ⟨l', hl'⟩ := mapM_total (fun t => do
+      let f ← ef e t
+      let l ← lfF e (efs.foldl max 0) (e.n + 1) t
+      pure (t, decide (l - (f - e.dur t) - e.dur t = 0))) (leaves e) (by
+    intro t ht
+    obtain ⟨w, hw⟩ := hef t ht
+    obtain ⟨v, hv⟩ := lfF_total e (efs.foldl max 0) ha t ht
+    exact ⟨(t, decide (v - (w - e.dur t) - e.dur t = 0)), by simp only [hw, hv, bind, Option.bind, pure]⟩)
+  refine ⟨(l'.filter (·.2)).map (·.1), ?_⟩
+  unfold criticalPath
+  simp only [hlen, hl']
 
 /-- only leaf tasks of the WBS are returned, each at most once -/
 theorem C12_members (e : CPEnv) (l : List Uid) (h : criticalPath e = .ok l) (hn : e.members.Nodup) :
     l.Nodup ∧ ∀ t ∈ l, t ∈ e.members ∧ e.isLeaf t = true := by
-  sorry
+  unfold criticalPath at h
+  split at h
+  · cases h
+  · next len hlen =>
+    split at h
+    · cases h
+    · next l' hl' =>
+      cases h
+      have hfst : l'.map (·.1) = leaves e := by
+        refine mapM_tag_fst _ _ _ ?_ hl'
+        intro a _ b hb
+        cases hf : ef e a with
+        | none => simp [hf, bind] at hb
+        | some f =>
+          cases hv : lfF e len (e.n + 1) a with
+          | none => simp [hf, hv, bind] at hb
+          | some v =>
+            simp only [hf, hv, bind, Option.bind, pure, Option.some.injEq] at hb
+            subst hb; rfl
+      have hsub : List.Sublist ((l'.filter (·.2)).map (·.1)) (leaves e) := by
+        rw [← hfst]
+        exact List.Sublist.map _ List.filter_sublist
+      constructor
+      · exact List.Nodup.sublist hsub (List.Nodup.sublist List.filter_sublist hn)
+      · intro t ht
+        have := hsub.subset ht
+        unfold leaves at this
+        exact List.mem_filter.mp this
 
 /-- the result is never empty when the WBS has a leaf -/
 theorem C12_nonempty (e : CPEnv) (l : List Uid) (h : criticalPath e = .ok l) (hl : leaves e ≠ []) : l ≠ [] := by
-  sorry
+  unfold criticalPath at h
+  split at h
+  · cases h
+  · next len hlen =>
+    split at h
+    · cases h
+    · next l' hl' =>
+      cases h
+      obtain ⟨hall, hmax⟩ := projectLen_spec e len hlen
+      obtain ⟨t, ht, heft⟩ := hmax hl
+      obtain ⟨b, hb, hg⟩ := mapM_some_mem _ _ _ hl' t ht
+      cases hv : lfF e len (e.n + 1) t with
+      | none => simp [heft, hv, bind] at hg
+      | some v =>
+        simp only [heft, hv, bind, Option.bind, pure, Option.some.injEq] at hg
+        have h1 := lfF_le_len e len _ t v hv
+        have h2 := ef_le_lfF e len hall _ t ht v hv len heft
+        have hz : v - (len - e.dur t) - e.dur t = 0 := by grind
+        have hb2 : b.2 = true := by rw [← hg]; exact decide_eq_true hz
+        have hmem : b.1 ∈ (l'.filter (·.2)).map (·.1) :=
+          List.mem_map.mpr ⟨b, List.mem_filter.mpr ⟨hb, hb2⟩, rfl⟩
+        intro hnil
+        rw [hnil] at hmem
+        cases hmem
 
 /-- dependencies declared on summary tasks bind all their leaves: a leaf below a summary that has a predecessor
     waits for every leaf member below that predecessor -/
 theorem C12_inherited (e : CPEnv) (t a p x : Uid) (ha : a ∈ t :: ancestors e (e.n + 1) t) (hp : p ∈ e.preds a)
     (hx : x = p ∨ ∃ d, descF e.children (e.n + 1) p = some d ∧ x ∈ d)
     (hl : e.isLeaf x = true) (hm : x ∈ e.members) : x ∈ prereqs e t := by
-  sorry
+  unfold prereqs
+  rw [List.mem_eraseDups, List.mem_filter]
+  refine ⟨List.mem_flatMap.mpr ⟨p, List.mem_flatMap.mpr ⟨a, ha, hp⟩, ?_⟩, ?_⟩
+  · rcases hx with rfl | ⟨d, hd, hxd⟩
+    · exact List.mem_cons_self
+    · rw [hd]; exact List.mem_cons_of_mem _ hxd
+  · simp [hl, hm]
 
 end Pj
